@@ -16,6 +16,7 @@ import (
 
 	"seata.apache.org/seata-go/pkg/protocol/branch"
 	"seata.apache.org/seata-go/pkg/protocol/message"
+	"seata.apache.org/seata-go/pkg/tm"
 
 	"verifharness/atenv"
 	"verifharness/gen"
@@ -52,6 +53,10 @@ type Case struct {
 	// Lenient: a configuration outside AT's documented domain (global transaction without client-side
 	// interpolation): statements may be refused, but nothing may be left open and nothing may panic
 	Lenient bool `json:"lenient,omitempty"`
+	// PlainCtx: the context the statements outside a global transaction are run with: "" = context.Background(),
+	// "seata-no-xid" = a context initialised for seata that carries no xid (NotSupported / Supports scopes),
+	// "unbound" = one whose xid was unbound again (a context reused after its global transaction)
+	PlainCtx string `json:"plain_ctx,omitempty"`
 }
 
 type opResult struct {
@@ -261,6 +266,17 @@ func execute(c Case, db *sql.DB, proxied bool, names []string) *runOut {
 		}
 	}
 	wedged = false
+	pc := bg
+	if proxied {
+		switch c.PlainCtx {
+		case "seata-no-xid":
+			pc = tm.InitSeataContext(bg)
+		case "unbound":
+			pc = tm.InitSeataContext(bg)
+			tm.SetXID(pc, "10.0.0.1:8091:99")
+			tm.UnbindXid(pc)
+		}
+	}
 	var tx *sql.Tx
 	split := len(c.Ops)
 	if c.Context == "global-then-plain" {
@@ -284,15 +300,15 @@ func execute(c Case, db *sql.DB, proxied bool, names []string) *runOut {
 			}
 		}
 		out.boundary = jclock.Tick()
-		runOps(bg, db, conn, c.Ops[split:], names, &tx, out)
+		runOps(pc, db, conn, c.Ops[split:], names, &tx, out)
 	} else {
-		runOps(bg, db, conn, c.Ops[:split], names, &tx, out)
+		runOps(pc, db, conn, c.Ops[:split], names, &tx, out)
 		if tx != nil && c.Context != "plain" {
 			_ = endTx(tx, false)
 			tx = nil
 		}
 		out.boundary = jclock.Tick()
-		runOps(bg, db, conn, c.Ops[split:], names, &tx, out)
+		runOps(pc, db, conn, c.Ops[split:], names, &tx, out)
 	}
 	if tx != nil {
 		_ = endTx(tx, false)
@@ -667,7 +683,7 @@ func shape(c Case) (string, bool) {
 			feat++
 		}
 	}
-	return fmt.Sprintf("%s|%s|%d|%s|%s", c.Driver, c.Context, c.DSN, c.Via, strings.Join(parts, ",")), dml > 0 && feat > 0
+	return fmt.Sprintf("%s|%s%s|%d|%s|%s", c.Driver, c.Context, c.PlainCtx, c.DSN, c.Via, strings.Join(parts, ",")), dml > 0 && feat > 0
 }
 
 func prop(driver string, contexts []string) func(rt *rapid.T) {
@@ -682,6 +698,9 @@ func prop(driver string, contexts []string) func(rt *rapid.T) {
 				c.DSN = 0
 				ctx.Rec.Excluded("assumption:interpolateParams-in-global")
 			}
+		}
+		if c.Context != "global" {
+			c.PlainCtx = rapid.SampledFrom([]string{"", "", "seata-no-xid", "unbound"}).Draw(rt, "plainCtx")
 		}
 		nt := rapid.IntRange(1, 2).Draw(rt, "nTables")
 		for i := 0; i < nt; i++ {
